@@ -566,15 +566,18 @@ def relative_text(code):
         return None
 
 
-def labels_gen_replay():
+def labels_gen_replay(deep=False):
     """spec -> code: Labels.tla GenSpec enumerates every small text over compiler-shaped lines and nested names with
     Resolve / ResolveRel of it; each text goes through the real remove_labels in both modes.  Returns the statistics."""
     d = workdir("C05_gen")
     with open(os.path.join(d, "cases.json"), "w") as f:
         f.write("[]")
     with open(os.path.join(d, "Gen.cfg"), "w") as f:
-        f.write("SPECIFICATION GenSpec\nCHECK_DEADLOCK FALSE\n")
-    r = run_tlc(os.path.join(SPEC, "Labels.tla"), os.path.join(d, "Gen.cfg"), d, workers=1, timeout=600)
+        f.write("SPECIFICATION GenSpec\nCHECK_DEADLOCK FALSE\n" + ("CONSTANT GenLen <- GenLen5\n" if deep else ""))
+    gen_path = os.path.join(d, "gen.json")
+    if os.path.exists(gen_path):
+        os.remove(gen_path)
+    r = run_tlc(os.path.join(SPEC, "Labels.tla"), os.path.join(d, "Gen.cfg"), d, workers=1, timeout=1200, extra=["-maxSetSize", "30000000"])
     gen_path = os.path.join(d, "gen.json")
     if not r.ok or not os.path.exists(gen_path):
         raise MachineryError("Labels.tla GenSpec run failed:\n" + r.out[-3000:])
@@ -701,7 +704,7 @@ def check_c05(tier, t0):
         rel_stat.update({"dynamic_cases": len(rel_items), "dynamic_differ": bad, "dynamic_states": rst["states"]})
     # spec -> code: every small text Labels.tla generates, through the real method in both modes (counted, not an alarm:
     # the texts use the compiler's line shapes and label forms but are not compiler output)
-    gen_stat = labels_gen_replay()
+    gen_stat = labels_gen_replay(deep=(tier == "thorough"))
     for mode in ("absolute", "relative", "labelled"):
         if gen_stat[mode + "_differ_count"]:
             print("NOTE remove_labels (%s mode) differs from Labels.tla on %d of %d generated texts, first: %s"
